@@ -169,6 +169,23 @@ def check(run, prog, tier):
         if n.get("k") == "Call" and n.get("fn") in writers - {"get_user_command"}:
             upd.add(b.id)
     retcmd = {b.id for b, i, n in guc.nodes() if n.get("k") == "Return" and n.get("e") is not None and const_val(n["e"]) != 0}
+    # a return taken because the served user's connection is gone (`!IP_VALID (ip, ob)`: ob->interactive != ip) hands
+    # back nothing to execute, and the slot the cursor stands on is empty: where the cursor stays does not matter
+    from stale import implied_atoms as _ia
+
+    def user_gone(bid):
+        for c, t, B in cfgq.guards(guc, bid):
+            disj = []
+            # !(a && b) does not decompose; look for the disjunct form too: ob->interactive != ip || ...
+            for a, tr in _ia(c, t):
+                op, l, r = atom_of(a, tr)
+                if op == "!=" and r is not None and any(x.get("k") == "Mem" and x.get("f") == "interactive" for x in walk(l)) or (op == "!=" and r is not None and any(x.get("k") == "Mem" and x.get("f") == "interactive" for x in walk(r))):
+                    return True
+            e0, t0 = normalize_cond(c, t)
+            if not t0 and (facts.any_in_macro(e0, "IP_VALID") or facts.any_in_macro(c, "IP_VALID")):
+                return True
+        return False
+    retcmd = {x for x in retcmd if not user_gone(x)}
     run.need(retcmd, "return of a command in get_user_command")
     p = guc.reach_avoiding([cb.id], lambda blk: blk.id in retcmd, avoid_blocks=upd - {cb.id}) if cb.id not in upd else None
     run.ob("C12-e", "advance-after-pick", p is None, "cursor `%s`: every path from the turn consumption to the return passes an advance (blocks %s)" % (cur, sorted(upd)) if p is None else "path %s returns the picked command with the cursor `%s` still on the served user: if the command raises an error the next scan starts with the same user again" % (p[:8], cur),
